@@ -280,10 +280,13 @@ Proof.
 Qed.
 
 (* ---------- the invariant ---------- *)
-Record minv (born : list arec) (removed : list Z) (m : Z) (ms : mstate) : Prop := {
+(* strict = true: the full invariant (histories without AgentSet-API removal from model.agents);
+   strict = false: what survives model.agents.discard/remove/select(inplace=True): everything except that
+   model.agents is only a duplicate-free SUBSET of the registered agents *)
+Record minv (strict : bool) (born : list arec) (removed : list Z) (m : Z) (ms : mstate) : Prop := {
   mi_hard : m_hard ms = live m born removed;
-  mi_all : Permutation (m_all ms) (m_hard ms);
-  mi_all_eq : m_reord ms = false -> m_all ms = m_hard ms;
+  mi_all : if strict then Permutation (m_all ms) (m_hard ms) else NoDup (m_all ms) /\ incl (m_all ms) (m_hard ms);
+  mi_all_eq : strict = true -> m_reord ms = false -> m_all ms = m_hard ms;
   mi_bt : forall c,
       match bt_get c (m_bt ms) with
       | Some l => Permutation l (live_cls m c born removed) /\ (m_reord ms = false -> l = live_cls m c born removed)
@@ -294,13 +297,13 @@ Record minv (born : list arec) (removed : list Z) (m : Z) (ms : mstate) : Prop :
   mi_next : FIRST_ID <= m_next ms
 }.
 
-Record Inv (w : world) : Prop := {
+Record Inv (strict : bool) (w : world) : Prop := {
   inv_nkey : 0 <= w_nkey w;
   inv_keys : forall a, In a (w_born w) -> 0 <= a_key a < w_nkey w;
   inv_nodup : NoDup (map a_key (w_born w));
   inv_removed : forall k, In k (w_removed w) -> k < w_nkey w;
   inv_amodel : forall a, In a (w_born w) -> 0 <= a_model a < zlen (w_models w);
-  inv_models : forall m ms, getm (w_models w) m = Some ms -> minv (w_born w) (w_removed w) m ms
+  inv_models : forall m ms, getm (w_models w) m = Some ms -> minv strict (w_born w) (w_removed w) m ms
 }.
 
 (* a key that no constructed agent carries is in no live list *)
@@ -308,11 +311,11 @@ Lemma livef_fresh P born r k : (forall a, In a born -> a_key a <> k) -> ~ In k (
 Proof. intros H Hin. apply livef_In in Hin. destruct Hin as [a [H1 [H2 _]]]. exact (H a H1 H2). Qed.
 
 (* ---------- Agent.__init__ ---------- *)
-Lemma register_minv born r m ms k c p :
-  minv born r m ms ->
+Lemma register_minv s born r m ms k c p :
+  minv s born r m ms ->
   (forall a, In a born -> a_key a <> k) -> ~ In k r ->
   let a := {| a_key := k; a_model := m; a_uid := m_next ms; a_cls := c; a_pay := p |} in
-  minv (born ++ [a]) r m
+  minv s (born ++ [a]) r m
        (register {| m_next := m_next ms + 1; m_hard := m_hard ms; m_all := m_all ms; m_bt := m_bt ms;
                     m_reord := m_reord ms |} k c).
 Proof.
@@ -320,14 +323,17 @@ Proof.
   assert (of_model m a = true) as Pm by (unfold of_model; simpl; apply Z.eqb_refl).
   assert (~ In k (m_hard ms)) as Hkh by (rewrite Hh; apply livef_fresh; exact Hfresh).
   assert (~ In k (m_all ms)) as Hka.
-  { intros H. apply Hkh. eapply Permutation_in; eassumption. }
+  { intros H. apply Hkh. destruct s; [eapply Permutation_in; eassumption|]. destruct Ha as [_ Hinc]. exact (Hinc k H). }
   assert (live m (born ++ [a]) r = live m born r ++ [k]) as Hlive.
   { unfold live. rewrite livef_snoc_yes; [reflexivity|exact Pm|exact Hr]. }
   unfold register. cbn [m_next m_hard m_all m_bt m_reord].
   constructor; cbn [m_next m_hard m_all m_bt m_reord].
   - rewrite (dict_add_new _ _ Hkh), Hlive, Hh. reflexivity.
-  - rewrite (dict_add_new _ _ Hkh), (dict_add_new _ _ Hka). apply Permutation_app_tail. exact Ha.
-  - intros Hre. rewrite (Hae Hre). reflexivity.
+  - rewrite (dict_add_new _ _ Hkh), (dict_add_new _ _ Hka). destruct s.
+    + apply Permutation_app_tail. exact Ha.
+    + destruct Ha as [Hnd Hinc]. split; [apply NoDup_snoc; assumption|].
+      intros x Hx. apply in_app_or in Hx. apply in_or_app. destruct Hx as [Hx|Hx]; [left; exact (Hinc x Hx)|right; exact Hx].
+  - intros Hs Hre. rewrite (Hae Hs Hre). reflexivity.
   - intros c'. pose proof (Hb c) as Hbc. pose proof (Hb c') as Hbc'.
     destruct (bt_get c (m_bt ms)) as [l|] eqn:Ec.
     + destruct Hbc as [Hp He].
@@ -368,8 +374,8 @@ Proof.
   - lia.
 Qed.
 
-Lemma create_frame born r j msj a :
-  minv born r j msj -> a_model a <> j -> minv (born ++ [a]) r j msj.
+Lemma create_frame s born r j msj a :
+  minv s born r j msj -> a_model a <> j -> minv s (born ++ [a]) r j msj.
 Proof.
   intros [Hh Ha Hae Hb Hbn Hi Hnx] Hne.
   assert (of_model j a = false) as Pm.
@@ -381,7 +387,7 @@ Proof.
   - unfold born_of. rewrite filter_app. simpl. rewrite Pm. rewrite app_nil_r. exact Hi.
 Qed.
 
-Lemma agent_init_inv w m c p : Inv w -> Inv (fst (agent_init w m c p)).
+Lemma agent_init_inv s w m c p : Inv s w -> Inv s (fst (agent_init w m c p)).
 Proof.
   intros HI. unfold agent_init. destruct (getm (w_models w) m) as [ms|] eqn:Eg; [|exact HI].
   cbn [fst]. destruct HI as [Hnk Hk Hnd Hr Ham Hm].
@@ -413,9 +419,9 @@ Proof.
   apply livef_sub. unfold of_class, of_model. intros a H. apply andb_true_iff in H. tauto.
 Qed.
 
-Lemma deregister_minv born r m ms a :
-  minv born r m ms -> NoDup (map a_key born) -> In a born -> a_model a = m ->
-  minv born (a_key a :: r) m (fst (deregister ms (a_key a) (a_cls a))).
+Lemma deregister_minv s born r m ms a :
+  minv s born r m ms -> NoDup (map a_key born) -> In a born -> a_model a = m ->
+  minv s born (a_key a :: r) m (fst (deregister ms (a_key a) (a_cls a))).
 Proof.
   intros [Hh Ha Hae Hb Hbn Hi Hnx] Hnd Hin Hmod.
   set (k := a_key a). set (c := a_cls a).
@@ -437,19 +443,31 @@ Proof.
     assert (zmem k l = true) as Ekl.
     { apply zmem_In. eapply Permutation_in; [apply Permutation_sym; exact Hp|exact Hkc]. }
     rewrite Ekl. cbn [m_next m_hard m_all m_bt m_reord].
-    assert (zmem k (m_all ms) = true) as Eka.
-    { rewrite (zmem_perm _ _ _ Ha). apply zmem_In. rewrite Hh. exact Ek. }
-    rewrite Eka. cbn [fst].
-    constructor; cbn [m_next m_hard m_all m_bt m_reord]; try assumption.
-    + unfold live. rewrite livef_cons_removed. fold (live m born r). rewrite Hh. reflexivity.
-    + apply zdel_perm. exact Ha.
-    + intros Hre. rewrite (Hae Hre). reflexivity.
-    + intros c'. unfold live_cls. rewrite livef_cons_removed. fold (live_cls m c' born r).
+    assert (s = true -> zmem k (m_all ms) = true) as Eka_strict.
+    { intros ->. rewrite (zmem_perm _ _ _ Ha). apply zmem_In. rewrite Hh. exact Ek. }
+    assert (zdel k (m_hard ms) = live m born (k :: r)) as Hhard'.
+    { unfold live. rewrite livef_cons_removed. fold (live m born r). rewrite Hh. reflexivity. }
+    assert (forall c', match bt_get c' (bt_set c (zdel k l) (m_bt ms)) with
+                       | Some l' => Permutation l' (live_cls m c' born (k :: r)) /\
+                                    (m_reord ms = false -> l' = live_cls m c' born (k :: r))
+                       | None => live_cls m c' born (k :: r) = []
+                       end) as Hbt'.
+    { intros c'. unfold live_cls. rewrite livef_cons_removed. fold (live_cls m c' born r).
       destruct (Z.eq_dec c' c) as [->|Hne].
-      * rewrite (bt_get_set_same _ _ _ _ Ec). split; [apply zdel_perm; exact Hp|].
+      - rewrite (bt_get_set_same _ _ _ _ Ec). split; [apply zdel_perm; exact Hp|].
         intros Hre. rewrite (He Hre). reflexivity.
-      * rewrite (bt_get_set_other _ _ _ _ Hne). rewrite (zdel_notin _ _ (Hother c' Hne)). exact (Hb c').
-    + rewrite bt_set_keys. exact Hbn.
+      - rewrite (bt_get_set_other _ _ _ _ Hne). rewrite (zdel_notin _ _ (Hother c' Hne)). exact (Hb c'). }
+    assert (NoDup (map fst (bt_set c (zdel k l) (m_bt ms)))) as Hbn' by (rewrite bt_set_keys; exact Hbn).
+    destruct (zmem k (m_all ms)) eqn:Eka; cbn [fst];
+      (constructor; cbn [m_next m_hard m_all m_bt m_reord];
+       [exact Hhard'| | |exact Hbt'|exact Hbn'|exact Hi|exact Hnx]).
+    + destruct s; [apply zdel_perm; exact Ha|]. destruct Ha as [Hnda Hinc]. split.
+      * apply (remove_key_NoDup Z.eqb). exact Hnda.
+      * intros x Hx. apply zdel_In in Hx. apply zdel_In. split; [apply Hinc; tauto|tauto].
+    + intros Hs Hre. rewrite (Hae Hs Hre). reflexivity.
+    + destruct s; [specialize (Eka_strict eq_refl); discriminate|]. destruct Ha as [Hnda Hinc]. split; [exact Hnda|].
+      intros x Hx. apply zdel_In. split; [exact (Hinc x Hx)|]. intros ->. apply zmem_false in Eka. exact (Eka Hx).
+    + intros Hs. specialize (Eka_strict Hs). discriminate.
   - (* not registered (removed before): KeyError at the first statement, nothing changes *)
     cbn [fst]. apply zmem_false in Ek. rewrite Hh in Ek.
     constructor; try assumption.
@@ -458,9 +476,9 @@ Proof.
       rewrite zdel_notin; [exact (Hb c')|]. intros H. apply Ek. eapply live_cls_sub. exact H.
 Qed.
 
-Lemma remove_frame born r j msj a :
-  minv born r j msj -> NoDup (map a_key born) -> In a born -> a_model a <> j ->
-  minv born (a_key a :: r) j msj.
+Lemma remove_frame s born r j msj a :
+  minv s born r j msj -> NoDup (map a_key born) -> In a born -> a_model a <> j ->
+  minv s born (a_key a :: r) j msj.
 Proof.
   intros [Hh Ha Hae Hb Hbn Hi Hnx] Hnd Hin Hne.
   assert (of_model j a = false) as Pm.
@@ -472,7 +490,7 @@ Proof.
     apply livef_notin_unique; try assumption. unfold of_class. unfold of_model in Pm. rewrite Pm. reflexivity.
 Qed.
 
-Lemma deregister_obj_inv w k : Inv w -> Inv (fst (deregister_obj w k)).
+Lemma deregister_obj_inv s w k : Inv s w -> Inv s (fst (deregister_obj w k)).
 Proof.
   intros HI. unfold deregister_obj.
   destruct (find_agent (w_born w) k) as [a|] eqn:Ef; [|exact HI].
@@ -491,54 +509,94 @@ Proof.
       apply remove_frame; [exact (Hm j msj Hg)|exact Hnd|exact Hin|congruence].
 Qed.
 
-Lemma agent_remove_inv w k : Inv w -> Inv (agent_remove w k).
+Lemma agent_remove_inv s w k : Inv s w -> Inv s (agent_remove w k).
 Proof. apply deregister_obj_inv. Qed.
 
-(* ---------- compound operations ---------- *)
-Lemma create_loop_inv m c f n is : forall w, Inv w -> Inv (fst (create_loop w m c f n is)).
+(* ---------- properties preserved by the two atomic actions are preserved by everything built from them ---------- *)
+Section Closure.
+  Variable P : world -> Prop.
+  Hypothesis P_init : forall w m c p, P w -> P (fst (agent_init w m c p)).
+  Hypothesis P_dereg : forall w k, P w -> P (fst (deregister_obj w k)).
+
+  Lemma P_create_loop m c f n is : forall w, P w -> P (fst (create_loop w m c f n is)).
+  Proof.
+    induction is as [|i t IH]; intros w HP; simpl; [exact HP|].
+    pose proof (P_init w m c (pay_at f n i) HP) as H1.
+    destruct (agent_init w m c (pay_at f n i)) as [w1 [k|]]; cbn [fst] in H1.
+    - specialize (IH w1 H1). destruct (create_loop w1 m c f n t) as [w2 ks]. exact IH.
+    - apply IH. exact H1.
+  Qed.
+
+  Lemma P_fold_remove l : forall w, P w -> P (fold_left agent_remove l w).
+  Proof.
+    induction l as [|k t IH]; intros w HP; simpl; [exact HP|]. apply IH. apply P_dereg. exact HP.
+  Qed.
+
+  Lemma P_remove_all w m : P w -> P (remove_all w m).
+  Proof.
+    intros HP. unfold remove_all. destruct (getm (w_models w) m); [|exact HP]. apply P_fold_remove. exact HP.
+  Qed.
+
+  Lemma P_exec_act w self a : P w -> P (exec_act w self a).
+  Proof.
+    intros HP. destruct a; simpl; try exact HP.
+    - apply P_dereg. exact HP.
+    - apply P_dereg. exact HP.
+    - apply P_init. exact HP.
+    - apply P_create_loop. exact HP.
+    - apply P_remove_all. exact HP.
+  Qed.
+
+  Lemma P_activate_loop s order : forall w, P w -> P (activate_loop w order s).
+  Proof.
+    unfold activate_loop. induction order as [|k t IH]; intros w HP; simpl; [exact HP|].
+    apply IH. apply P_exec_act. exact HP.
+  Qed.
+
+  (* NewModel and the two reorders only replace w_models *)
+  Definition structural (o : op) : bool :=
+    match o with NewModel | ReorderAll _ _ | ReorderType _ _ _ | SetDiscard _ _ _ | SetSelect _ _ => true | _ => false end.
+
+  Lemma P_step_op w o : structural o = false -> P w -> P (fst (step_op w o)).
+  Proof.
+    intros Hs HP. destruct o as [|m c v|m c n f|k|k|m|m order|m c order|m c shuf s|m k strict|m keep]; simpl in *; try discriminate.
+    - pose proof (P_init w m c (PInt v) HP) as H. destruct (agent_init w m c (PInt v)) as [w' [k|]]; exact H.
+    - destruct (getm (w_models w) m); [|exact HP].
+      pose proof (P_create_loop m c f n (seq 0 (Z.to_nat n)) w HP) as H. unfold create_agents.
+      destruct (create_loop w m c f n (seq 0 (Z.to_nat n))) as [w' ks]. exact H.
+    - pose proof (P_dereg w k HP) as H. destruct (deregister_obj w k) as [w' [b|]]; exact H.
+    - pose proof (P_dereg w k HP) as H. destruct (deregister_obj w k) as [w' [[|]|]]; exact H.
+    - destruct (getm (w_models w) m); [|exact HP]. apply P_remove_all. exact HP.
+    - destruct (getm (w_models w) m) as [ms|]; [|exact HP].
+      destruct (match c with Some c' => bt_get c' (m_bt ms) | None => Some (m_all ms) end) as [snap|]; [|exact HP].
+      destruct shuf as [p|].
+      + destruct (is_perm p snap); [|exact HP]. apply P_activate_loop. exact HP.
+      + apply P_activate_loop. exact HP.
+  Qed.
+End Closure.
+
+
+Lemma create_agents_inv s w m c n f : Inv s w -> Inv s (fst (create_agents w m c n f)).
+Proof. apply (P_create_loop (Inv s)). intros w0 m0 c0 p0. apply agent_init_inv. Qed.
+
+Lemma remove_all_inv s w m : Inv s w -> Inv s (remove_all w m).
+Proof. apply (P_remove_all (Inv s)). intros w0 k0. apply deregister_obj_inv. Qed.
+
+Lemma exec_act_inv s w self a : Inv s w -> Inv s (exec_act w self a).
 Proof.
-  induction is as [|i t IH]; intros w HI; simpl; [exact HI|].
-  pose proof (agent_init_inv w m c (pay_at f n i) HI) as H1.
-  destruct (agent_init w m c (pay_at f n i)) as [w1 [k|]]; cbn [fst] in H1.
-  - specialize (IH w1 H1). destruct (create_loop w1 m c f n t) as [w2 ks]. exact IH.
-  - apply IH. exact H1.
+  apply (P_exec_act (Inv s)); [intros w0 m0 c0 p0; apply agent_init_inv|intros w0 k0; apply deregister_obj_inv].
 Qed.
 
-Lemma create_agents_inv w m c n f : Inv w -> Inv (fst (create_agents w m c n f)).
-Proof. apply create_loop_inv. Qed.
-
-Lemma fold_remove_inv l : forall w, Inv w -> Inv (fold_left agent_remove l w).
+Lemma activate_loop_inv s sc order w : Inv s w -> Inv s (activate_loop w order sc).
 Proof.
-  induction l as [|k t IH]; intros w HI; simpl; [exact HI|]. apply IH. apply agent_remove_inv. exact HI.
-Qed.
-
-Lemma remove_all_inv w m : Inv w -> Inv (remove_all w m).
-Proof.
-  intros HI. unfold remove_all. destruct (getm (w_models w) m); [|exact HI]. apply fold_remove_inv. exact HI.
-Qed.
-
-Lemma exec_act_inv w self a : Inv w -> Inv (exec_act w self a).
-Proof.
-  intros HI. destruct a; simpl.
-  - exact HI.
-  - apply agent_remove_inv. exact HI.
-  - apply agent_remove_inv. exact HI.
-  - apply agent_init_inv. exact HI.
-  - apply create_agents_inv. exact HI.
-  - apply remove_all_inv. exact HI.
-Qed.
-
-Lemma activate_loop_inv s order : forall w, Inv w -> Inv (activate_loop w order s).
-Proof.
-  unfold activate_loop. induction order as [|k t IH]; intros w HI; simpl; [exact HI|].
-  apply IH. apply exec_act_inv. exact HI.
+  apply (P_activate_loop (Inv s)); [intros w0 m0 c0 p0; apply agent_init_inv|intros w0 k0; apply deregister_obj_inv].
 Qed.
 
 (* an in-place reorder of one set of one model *)
-Lemma set_model_inv w m ms ms' :
-  Inv w -> getm (w_models w) m = Some ms ->
-  minv (w_born w) (w_removed w) m ms' ->
-  Inv (set_models w (setm (w_models w) m ms')).
+Lemma set_model_inv s w m ms ms' :
+  Inv s w -> getm (w_models w) m = Some ms ->
+  minv s (w_born w) (w_removed w) m ms' ->
+  Inv s (set_models w (setm (w_models w) m ms')).
 Proof.
   intros [Hnk Hk Hnd Hr Ham Hm] Eg Hms'.
   constructor; cbn [set_models w_born w_nkey w_models w_removed]; try assumption.
@@ -548,19 +606,21 @@ Proof.
     + rewrite (getm_setm_other _ _ _ _ _ Eg Hne) in Hg. exact (Hm j msj Hg).
 Qed.
 
-Lemma with_all_minv born r m ms order :
-  minv born r m ms -> Permutation order (m_all ms) -> minv born r m (with_all ms order).
+Lemma with_all_minv s born r m ms order :
+  minv s born r m ms -> Permutation order (m_all ms) -> minv s born r m (with_all ms order).
 Proof.
   intros [Hh Ha Hae Hb Hbn Hi Hnx] Hp.
   constructor; cbn [with_all m_next m_hard m_all m_bt m_reord]; try assumption.
-  - eapply perm_trans; eassumption.
+  - destruct s; [eapply perm_trans; eassumption|]. destruct Ha as [Hnd Hinc]. split.
+    + eapply Permutation_NoDup; [apply Permutation_sym; exact Hp|exact Hnd].
+    + intros x Hx. apply Hinc. eapply Permutation_in; eassumption.
   - discriminate.
   - intros c. specialize (Hb c). destruct (bt_get c (m_bt ms)); [|exact Hb].
     split; [apply Hb|discriminate].
 Qed.
 
-Lemma with_bt_minv born r m ms c l order :
-  minv born r m ms -> bt_get c (m_bt ms) = Some l -> Permutation order l -> minv born r m (with_bt ms c order).
+Lemma with_bt_minv s born r m ms c l order :
+  minv s born r m ms -> bt_get c (m_bt ms) = Some l -> Permutation order l -> minv s born r m (with_bt ms c order).
 Proof.
   intros [Hh Ha Hae Hb Hbn Hi Hnx] Ec Hp.
   constructor; cbn [with_bt m_next m_hard m_all m_bt m_reord]; try assumption.
@@ -573,8 +633,32 @@ Proof.
   - rewrite bt_set_keys. exact Hbn.
 Qed.
 
-Lemma fresh_minv born r j :
-  (forall a, In a born -> a_model a <> j) -> minv born r j fresh_model.
+(* AgentSet-API removal from model.agents: only the weak invariant survives *)
+Lemma with_all_only_minv born r m ms l :
+  minv false born r m ms -> NoDup l -> incl l (m_all ms) -> minv false born r m (with_all_only ms l).
+Proof.
+  intros [Hh Ha Hae Hb Hbn Hi Hnx] Hnd Hinc.
+  constructor; cbn [with_all_only m_next m_hard m_all m_bt m_reord]; try assumption.
+  - destruct Ha as [_ Hinc']. split; [exact Hnd|]. intros x Hx. apply Hinc'. apply Hinc. exact Hx.
+  - discriminate.
+Qed.
+
+Lemma is_subseq_incl keep : forall l, is_subseq keep l = true -> incl keep l /\ (NoDup l -> NoDup keep).
+Proof.
+  induction keep as [|x keep IH]; intros l H.
+  - split; [intros y []|constructor].
+  - induction l as [|y l IHl]; [discriminate|]. simpl in H. destruct (x =? y) eqn:E.
+    + apply Z.eqb_eq in E. subst y. destruct (IH l H) as [H1 H2]. split.
+      * intros z [<-|Hz]; [left; reflexivity|right; exact (H1 z Hz)].
+      * intros Hn. inversion Hn as [|y' l' Hy Hl]; subst. constructor; [|exact (H2 Hl)].
+        intros Hin. apply Hy. exact (H1 x Hin).
+    + destruct (IHl H) as [H1 H2]. split.
+      * intros z Hz. right. exact (H1 z Hz).
+      * intros Hn. inversion Hn. auto.
+Qed.
+
+Lemma fresh_minv s born r j :
+  (forall a, In a born -> a_model a <> j) -> minv s born r j fresh_model.
 Proof.
   intros H.
   assert (forall P, (forall a, P a = true -> a_model a = j) -> livef P born r = []) as Hnil.
@@ -583,7 +667,7 @@ Proof.
     apply livef_In in Hin. destruct Hin as [a [H1 [_ [H3 _]]]]. exfalso. exact (H a H1 (HP a H3)). }
   constructor; cbn [fresh_model m_next m_hard m_all m_bt m_reord].
   - symmetry. apply Hnil. intros a Ha. apply Z.eqb_eq. exact Ha.
-  - constructor.
+  - destruct s; [constructor|split; [constructor|intros x []]].
   - reflexivity.
   - intros c. simpl. apply Hnil. unfold of_class. intros a Ha. apply andb_true_iff in Ha. apply Z.eqb_eq. tauto.
   - constructor.
@@ -608,48 +692,67 @@ Proof.
     + destruct d; discriminate.
 Qed.
 
-Lemma step_op_inv w o : Inv w -> Inv (fst (step_op w o)).
+(* operations that remove from model.agents through the AgentSet API *)
+Definition is_setapi (o : op) : bool := match o with SetDiscard _ _ _ | SetSelect _ _ => true | _ => false end.
+Definition setapi_free (ops : list op) : bool := forallb (fun o => negb (is_setapi o)) ops.
+
+(* the strict invariant is preserved by every registry operation; the weak one by every operation *)
+Lemma step_op_inv s w o : s = false \/ is_setapi o = false -> Inv s w -> Inv s (fst (step_op w o)).
 Proof.
-  intros HI. destruct o as [|m c v|m c n f|k|k|m|m order|m c order|m c shuf s]; simpl.
+  intros Hs HI. destruct o as [|m c v|m c n f|k|k|m|m order|m c order|m c shuf sc|m k strict|m keep]; simpl.
   - (* NewModel *)
     destruct HI as [Hnk Hk Hnd Hr Ham Hm].
     constructor; cbn [set_models w_born w_nkey w_models w_removed]; try assumption.
     + intros a H. specialize (Ham a H). unfold zlen in *. rewrite app_length. simpl. lia.
     + intros j msj Hg. apply getm_app_new in Hg. destruct Hg as [Hg|[-> ->]]; [exact (Hm j msj Hg)|].
       apply fresh_minv. intros a H. specialize (Ham a H). lia.
-  - pose proof (agent_init_inv w m c (PInt v) HI) as H.
+  - pose proof (agent_init_inv s w m c (PInt v) HI) as H.
     destruct (agent_init w m c (PInt v)) as [w' [k|]]; exact H.
   - destruct (getm (w_models w) m); [|exact HI].
-    pose proof (create_agents_inv w m c n f HI) as H.
+    pose proof (create_agents_inv s w m c n f HI) as H.
     destruct (create_agents w m c n f) as [w' ks]. exact H.
-  - pose proof (deregister_obj_inv w k HI) as H.
+  - pose proof (deregister_obj_inv s w k HI) as H.
     destruct (deregister_obj w k) as [w' [b|]]; exact H.
-  - pose proof (deregister_obj_inv w k HI) as H.
+  - pose proof (deregister_obj_inv s w k HI) as H.
     destruct (deregister_obj w k) as [w' [[|]|]]; exact H.
   - destruct (getm (w_models w) m); [|exact HI]. apply remove_all_inv. exact HI.
   - destruct (getm (w_models w) m) as [ms|] eqn:Eg; [|exact HI].
     destruct (is_perm order (m_all ms)) eqn:Ep; [|exact HI]. cbn [fst].
     eapply set_model_inv; [exact HI|exact Eg|].
-    apply with_all_minv; [exact (inv_models w HI m ms Eg)|]. apply is_perm_Permutation. exact Ep.
+    apply with_all_minv; [exact (inv_models s w HI m ms Eg)|]. apply is_perm_Permutation. exact Ep.
   - destruct (getm (w_models w) m) as [ms|] eqn:Eg; [|exact HI].
     destruct (bt_get c (m_bt ms)) as [l|] eqn:Ec; [|exact HI].
     destruct (is_perm order l) eqn:Ep; [|exact HI]. cbn [fst].
     eapply set_model_inv; [exact HI|exact Eg|].
-    eapply with_bt_minv; [exact (inv_models w HI m ms Eg)|exact Ec|]. apply is_perm_Permutation. exact Ep.
+    eapply with_bt_minv; [exact (inv_models s w HI m ms Eg)|exact Ec|]. apply is_perm_Permutation. exact Ep.
   - destruct (getm (w_models w) m) as [ms|] eqn:Eg; [|exact HI].
     destruct (match c with Some c' => bt_get c' (m_bt ms) | None => Some (m_all ms) end) as [snap|]; [|exact HI].
     destruct shuf as [p|].
     + destruct (is_perm p snap); [|exact HI]. apply activate_loop_inv. exact HI.
     + apply activate_loop_inv. exact HI.
+  - destruct Hs as [->|Hs]; [|discriminate].
+    destruct (getm (w_models w) m) as [ms|] eqn:Eg; [|exact HI].
+    destruct (zmem k (m_all ms)); [|exact HI]. cbn [fst].
+    eapply set_model_inv; [exact HI|exact Eg|].
+    pose proof (inv_models false w HI m ms Eg) as Hms. pose proof (mi_all _ _ _ _ _ Hms) as [Hnd Hinc].
+    apply with_all_only_minv; [exact Hms|apply (remove_key_NoDup Z.eqb); exact Hnd|].
+    intros x Hx. apply zdel_In in Hx. tauto.
+  - destruct Hs as [->|Hs]; [|discriminate].
+    destruct (getm (w_models w) m) as [ms|] eqn:Eg; [|exact HI].
+    destruct (is_subseq keep (m_all ms)) eqn:Esub; [|exact HI]. cbn [fst].
+    eapply set_model_inv; [exact HI|exact Eg|].
+    pose proof (inv_models false w HI m ms Eg) as Hms. pose proof (mi_all _ _ _ _ _ Hms) as [Hnd Hinc].
+    destruct (is_subseq_incl keep _ Esub) as [H1 H2].
+    apply with_all_only_minv; [exact Hms|exact (H2 Hnd)|exact H1].
 Qed.
 
-Lemma step_inv w o : Inv w -> Inv (fst (step w o)).
+Lemma step_inv s w o : s = false \/ is_setapi o = false -> Inv s w -> Inv s (fst (step w o)).
 Proof.
-  intros HI. unfold step. pose proof (step_op_inv w o HI) as H.
+  intros Hs HI. unfold step. pose proof (step_op_inv s w o Hs HI) as H.
   destruct (step_op w o) as [w' r]. exact H.
 Qed.
 
-Lemma init_inv n : Inv (init n).
+Lemma init_inv s n : Inv s (init n).
 Proof.
   constructor; cbn [init w_born w_nkey w_models w_removed].
   - lia.
@@ -662,14 +765,23 @@ Proof.
     apply fresh_minv. intros a [].
 Qed.
 
-Lemma final_inv ops : forall w, Inv w -> Inv (final w ops).
+Lemma final_inv s ops : forall w, s = false \/ setapi_free ops = true -> Inv s w -> Inv s (final w ops).
 Proof.
-  unfold final. induction ops as [|o t IH]; intros w HI; simpl; [exact HI|].
-  apply IH. apply step_inv. exact HI.
+  unfold final, setapi_free. induction ops as [|o t IH]; intros w Hs HI; simpl; [exact HI|].
+  apply IH.
+  - destruct Hs as [Hs|Hs]; [left; exact Hs|right]. simpl in Hs. apply andb_true_iff in Hs. tauto.
+  - apply step_inv; [|exact HI]. destruct Hs as [Hs|Hs]; [left; exact Hs|right].
+    simpl in Hs. apply andb_true_iff in Hs. destruct Hs as [Hs _]. destruct (is_setapi o); [discriminate|reflexivity].
 Qed.
 
-Theorem reachable_inv n ops : Inv (final (init n) ops).
-Proof. apply final_inv. apply init_inv. Qed.
+(* registry operations only: the full invariant *)
+Theorem reachable_inv n ops : setapi_free ops = true -> Inv true (final (init n) ops).
+Proof. intros H. apply final_inv; [right; exact H|apply init_inv]. Qed.
+
+(* any history, AgentSet-API removals from model.agents included: the weak invariant *)
+Theorem reachable_inv_weak n ops : Inv false (final (init n) ops).
+Proof. apply final_inv; [left; reflexivity|apply init_inv]. Qed.
+
 
 (* ====================================================================================== *)
 (* What the invariant says, clause by clause                                              *)
@@ -726,27 +838,23 @@ Proof.
 Qed.
 
 Section Reachable.
+  (* ANY history - AgentSet-API removals from model.agents included *)
   Variables (n : Z) (ops : list op).
   Let w := final (init n) ops.
   Variables (m : Z) (ms : mstate).
   Hypothesis Hm : getm (w_models w) m = Some ms.
 
-  Let HI : Inv w := reachable_inv n ops.
-  Let Hms : minv (w_born w) (w_removed w) m ms := inv_models w HI m ms Hm.
+  Let HI : Inv false w := reachable_inv_weak n ops.
+  Let Hms : minv false (w_born w) (w_removed w) m ms := inv_models false w HI m ms Hm.
 
   Lemma thm_hard_exact : m_hard ms = live m (w_born w) (w_removed w).
-  Proof. exact (mi_hard _ _ _ _ Hms). Qed.
+  Proof. exact (mi_hard _ _ _ _ _ Hms). Qed.
 
-  Lemma thm_agents_exact :
-    Permutation (m_all ms) (live m (w_born w) (w_removed w)) /\
-    NoDup (m_all ms) /\
-    (m_reord ms = false -> m_all ms = live m (w_born w) (w_removed w)).
-  Proof.
-    pose proof (mi_all _ _ _ _ Hms) as Hp. rewrite (mi_hard _ _ _ _ Hms) in Hp.
-    split; [exact Hp|]. split.
-    - eapply Permutation_NoDup; [apply Permutation_sym; exact Hp|]. apply live_NoDup. exact (inv_nodup w HI).
-    - intros H. rewrite (mi_all_eq _ _ _ _ Hms H). exact (mi_hard _ _ _ _ Hms).
-  Qed.
+  (* whatever was done to model.agents through the AgentSet API, it never holds a removed or foreign agent,
+     and never one twice *)
+  Lemma thm_agents_sound :
+    NoDup (m_all ms) /\ incl (m_all ms) (live m (w_born w) (w_removed w)).
+  Proof. pose proof (mi_all _ _ _ _ _ Hms) as H. rewrite (mi_hard _ _ _ _ _ Hms) in H. exact H. Qed.
 
   Lemma thm_by_type_exact c :
     match bt_get c (m_bt ms) with
@@ -754,17 +862,17 @@ Section Reachable.
                 (m_reord ms = false -> l = live_cls m c (w_born w) (w_removed w))
     | None => live_cls m c (w_born w) (w_removed w) = []
     end.
-  Proof. exact (mi_bt _ _ _ _ Hms c). Qed.
+  Proof. exact (mi_bt _ _ _ _ _ Hms c). Qed.
 
   Lemma thm_agent_types_nodup : NoDup (map fst (m_bt ms)).
-  Proof. exact (mi_bt_nodup _ _ _ _ Hms). Qed.
+  Proof. exact (mi_bt_nodup _ _ _ _ _ Hms). Qed.
 
   (* every class that has a live agent is a key of agents_by_type (= is named by agent_types) *)
   Lemma thm_types_cover a :
     In a (w_born w) -> a_model a = m -> ~ In (a_key a) (w_removed w) ->
     exists l, bt_get (a_cls a) (m_bt ms) = Some l /\ In (a_key a) l.
   Proof.
-    intros Hin Hmod Hr. pose proof (mi_bt _ _ _ _ Hms (a_cls a)) as Hb.
+    intros Hin Hmod Hr. pose proof (mi_bt _ _ _ _ _ Hms (a_cls a)) as Hb.
     assert (In (a_key a) (live_cls m (a_cls a) (w_born w) (w_removed w))) as Hl.
     { apply live_cls_spec. exists a. repeat split; auto. }
     destruct (bt_get (a_cls a) (m_bt ms)) as [l|].
@@ -777,10 +885,26 @@ Section Reachable.
     map a_uid (born_of m (w_born w)) = zrange 1 (zlen (born_of m (w_born w))) /\
     m_next ms = zlen (born_of m (w_born w)) + 1.
   Proof.
-    pose proof (mi_ids _ _ _ _ Hms) as Hi. pose proof (mi_next _ _ _ _ Hms) as Hn. unfold FIRST_ID in *.
+    pose proof (mi_ids _ _ _ _ _ Hms) as Hi. pose proof (mi_next _ _ _ _ _ Hms) as Hn. unfold FIRST_ID in *.
     assert (zlen (born_of m (w_born w)) = m_next ms - 1) as Hl.
     { unfold zlen. rewrite <- (map_length a_uid), Hi, zrange_length. lia. }
     rewrite Hl. split; [exact Hi|lia].
+  Qed.
+
+  (* registry operations only (no AgentSet-API removal from model.agents): model.agents is exact *)
+  Hypothesis Hfree : setapi_free ops = true.
+  Let HIs : Inv true w := reachable_inv n ops Hfree.
+  Let Hmss : minv true (w_born w) (w_removed w) m ms := inv_models true w HIs m ms Hm.
+
+  Lemma thm_agents_exact :
+    Permutation (m_all ms) (live m (w_born w) (w_removed w)) /\
+    NoDup (m_all ms) /\
+    (m_reord ms = false -> m_all ms = live m (w_born w) (w_removed w)).
+  Proof.
+    pose proof (mi_all _ _ _ _ _ Hmss) as Hp. cbn in Hp. rewrite (mi_hard _ _ _ _ _ Hmss) in Hp.
+    split; [exact Hp|]. split.
+    - eapply Permutation_NoDup; [apply Permutation_sym; exact Hp|]. apply live_NoDup. exact (inv_nodup true w HIs).
+    - intros H. rewrite (mi_all_eq _ _ _ _ _ Hmss eq_refl H). exact (mi_hard _ _ _ _ _ Hmss).
   Qed.
 End Reachable.
 
@@ -788,9 +912,9 @@ Lemma thm_ids_unique n ops a b :
   let w := final (init n) ops in
   In a (w_born w) -> In b (w_born w) -> a_model a = a_model b -> a_uid a = a_uid b -> a = b.
 Proof.
-  intros w Ha Hb Hmod Huid. pose proof (reachable_inv n ops) as HI. fold w in HI.
-  destruct (getm_in_range _ _ (inv_amodel w HI a Ha)) as [ms Hg].
-  pose proof (mi_ids _ _ _ _ (inv_models w HI _ _ Hg)) as Hi.
+  intros w Ha Hb Hmod Huid. pose proof (reachable_inv_weak n ops) as HI. fold w in HI.
+  destruct (getm_in_range _ _ (inv_amodel false w HI a Ha)) as [ms Hg].
+  pose proof (mi_ids _ _ _ _ _ (inv_models false w HI _ _ Hg)) as Hi.
   assert (NoDup (map a_uid (born_of (a_model a) (w_born w)))) as Hnd by (rewrite Hi; apply zrange_NoDup).
   eapply (NoDup_map_eq a_uid); [exact Hnd| | |exact Huid].
   - apply filter_In. split; [exact Ha|]. apply Z.eqb_refl.
@@ -834,23 +958,23 @@ Proof.
   rewrite setm_setm. auto.
 Qed.
 
-Lemma thm_remove_clears w k a :
-  Inv w -> find_agent (w_born w) k = Some a ->
+Lemma thm_remove_clears s w k a :
+  Inv s w -> find_agent (w_born w) k = Some a ->
   let w' := agent_remove w k in
   forall m ms, getm (w_models w') m = Some ms ->
     ~ In k (m_hard ms) /\ ~ In k (m_all ms) /\ (forall c l, bt_get c (m_bt ms) = Some l -> ~ In k l).
 Proof.
   intros HI Ef w' m ms Hg.
-  pose proof (agent_remove_inv w k HI) as HI'. fold w' in HI'.
+  pose proof (agent_remove_inv s w k HI) as HI'. fold w' in HI'.
   assert (In k (w_removed w')) as Hr.
   { unfold w', agent_remove, deregister_obj. rewrite Ef.
     apply find_agent_Some in Ef. destruct Ef as [Hin _].
-    destruct (getm_in_range _ _ (inv_amodel w HI a Hin)) as [ms0 Hg0]. rewrite Hg0.
+    destruct (getm_in_range _ _ (inv_amodel s w HI a Hin)) as [ms0 Hg0]. rewrite Hg0.
     destruct (deregister ms0 k (a_cls a)). cbn [fst w_removed]. left. reflexivity. }
-  pose proof (inv_models w' HI' m ms Hg) as [Hh Ha _ Hb _ _ _].
+  pose proof (inv_models s w' HI' m ms Hg) as [Hh Ha _ Hb _ _ _].
   assert (~ In k (m_hard ms)) as H1 by (rewrite Hh; apply livef_removed_notin; exact Hr).
   split; [exact H1|]. split.
-  - intros H. apply H1. eapply Permutation_in; eassumption.
+  - intros H. apply H1. destruct s; [eapply Permutation_in; eassumption|]. destruct Ha as [_ Hinc]. exact (Hinc k H).
   - intros c l Ec H. specialize (Hb c). rewrite Ec in Hb. destruct Hb as [Hp _].
     eapply (livef_removed_notin (of_class m c) (w_born w') (w_removed w') k Hr).
     eapply Permutation_in; eassumption.
@@ -908,28 +1032,29 @@ Proof.
   - rewrite IH by exact Hne. exact H1.
 Qed.
 
-Lemma hard_agents_of_model w m ms k a :
-  Inv w -> getm (w_models w) m = Some ms -> In k (m_hard ms) -> find_agent (w_born w) k = Some a -> a_model a = m.
+Lemma hard_agents_of_model s w m ms k a :
+  Inv s w -> getm (w_models w) m = Some ms -> In k (m_hard ms) -> find_agent (w_born w) k = Some a -> a_model a = m.
 Proof.
-  intros HI Hg Hin Hf. rewrite (mi_hard _ _ _ _ (inv_models w HI m ms Hg)) in Hin.
+  intros HI Hg Hin Hf. rewrite (mi_hard _ _ _ _ _ (inv_models s w HI m ms Hg)) in Hin.
   apply live_spec in Hin. destruct Hin as [a' [H1 [H2 [H3 _]]]].
   apply find_agent_Some in Hf. destruct Hf as [H4 H5].
-  assert (a' = a) by (eapply born_unique; [exact (inv_nodup w HI)| | |]; congruence). subst. reflexivity.
+  assert (a' = a) by (eapply born_unique; [exact (inv_nodup s w HI)| | |]; congruence). subst. reflexivity.
 Qed.
 
-Lemma remove_all_frame w m j :
-  Inv w -> j <> m -> getm (w_models (remove_all w m)) j = getm (w_models w) j.
+Lemma remove_all_frame s w m j :
+  Inv s w -> j <> m -> getm (w_models (remove_all w m)) j = getm (w_models w) j.
 Proof.
   intros HI Hne. unfold remove_all. destruct (getm (w_models w) m) as [ms|] eqn:Eg; [|reflexivity].
   apply fold_remove_frame. intros k a Hin Hf.
-  rewrite (hard_agents_of_model w m ms k a HI Eg Hin Hf). congruence.
+  rewrite (hard_agents_of_model s w m ms k a HI Eg Hin Hf). congruence.
 Qed.
 
 (* the model a script-free operation acts on *)
 Definition op_target (w : world) (o : op) : option Z :=
   match o with
   | NewModel => None
-  | Create m _ _ | CreateMany m _ _ _ | RemoveAll m | ReorderAll m _ | ReorderType m _ _ => Some m
+  | Create m _ _ | CreateMany m _ _ _ | RemoveAll m | ReorderAll m _ | ReorderType m _ _
+  | SetDiscard m _ _ | SetSelect m _ => Some m
   | Remove k | Deregister k => option_map a_model (find_agent (w_born w) k)
   | Activate m _ _ _ => Some m
   end.
@@ -941,15 +1066,15 @@ Proof.
   rewrite nth_error_app1; [exact H|]. apply nth_error_Some. congruence.
 Qed.
 
-Lemma thm_frame_simple w o j msj :
-  Inv w -> is_activate o = false -> op_target w o <> Some j ->
+Lemma thm_frame_simple s w o j msj :
+  Inv s w -> is_activate o = false -> op_target w o <> Some j ->
   getm (w_models w) j = Some msj ->
   getm (w_models (fst (step w o))) j = Some msj.
 Proof.
   intros HI Hna Ht Hj. unfold step. destruct (step_op w o) as [w' r] eqn:Es. cbn [fst].
   assert (w' = fst (step_op w o)) as -> by (rewrite Es; reflexivity). clear Es r.
   rewrite <- Hj.
-  destruct o as [|m c v|m c n f|k|k|m|m order|m c order|m c shuf s]; simpl in Ht |- *; try discriminate.
+  destruct o as [|m c v|m c n f|k|k|m|m order|m c order|m c shuf sc|m k strict|m keep]; simpl in Ht |- *; try discriminate.
   - rewrite Hj. apply getm_app_old. exact Hj.
   - pose proof (agent_init_frame w m c (PInt v) j) as H.
     destruct (agent_init w m c (PInt v)) as [w' [k|]]; apply H; congruence.
@@ -961,12 +1086,18 @@ Proof.
     destruct (deregister_obj w k) as [w' [b|]]; apply H; intros a Ha; rewrite Ha in Ht; simpl in Ht; congruence.
   - pose proof (deregister_obj_frame w k j) as H.
     destruct (deregister_obj w k) as [w' [[|]|]]; apply H; intros a Ha; rewrite Ha in Ht; simpl in Ht; congruence.
-  - destruct (getm (w_models w) m); [|reflexivity]. apply remove_all_frame; [exact HI|congruence].
+  - destruct (getm (w_models w) m); [|reflexivity]. apply (remove_all_frame s); [exact HI|congruence].
   - destruct (getm (w_models w) m) as [ms|] eqn:Eg; [|reflexivity].
     destruct (is_perm order (m_all ms)); [|reflexivity]. cbn [fst set_models w_models].
     eapply getm_setm_other; [exact Eg|congruence].
   - destruct (getm (w_models w) m) as [ms|] eqn:Eg; [|reflexivity].
     destruct (bt_get c (m_bt ms)); [|reflexivity].
     destruct (is_perm order l); [|reflexivity]. cbn [fst set_models w_models].
+    eapply getm_setm_other; [exact Eg|congruence].
+  - destruct (getm (w_models w) m) as [ms|] eqn:Eg; [|reflexivity].
+    destruct (zmem k (m_all ms)); [|reflexivity]. cbn [fst set_models w_models].
+    eapply getm_setm_other; [exact Eg|congruence].
+  - destruct (getm (w_models w) m) as [ms|] eqn:Eg; [|reflexivity].
+    destruct (is_subseq keep (m_all ms)); [|reflexivity]. cbn [fst set_models w_models].
     eapply getm_setm_other; [exact Eg|congruence].
 Qed.
